@@ -1242,7 +1242,7 @@ func cmdFederationChild(args []string) {
 	a, _ := strconv.Atoi(args[1])
 	b, _ := strconv.Atoi(args[2])
 	defer cleanupSockets()
-	steps, fails := 0, 0
+	steps, fails, slow := 0, 0, 0
 	kinds := map[string]int{}
 	for c := a; c < b; c++ {
 		t := tests[c]
@@ -1255,7 +1255,11 @@ func cmdFederationChild(args []string) {
 		if f != nil {
 			out.Fail(f.class, f.detail, map[string]interface{}{"ops": fdOps(t), "step": at, "expected": t[at].Obs, "expected_events": t[at].Ev, "expected_requests": t[at].Rq})
 			fails++
-			if fails >= maxFailsPerChild {
+			// a failure that cost a wall-clock bound: the verdict does not get clearer with more of them
+			if strings.Contains(f.class, "not-refreshed") || strings.Contains(f.class, "hangs") || strings.Contains(f.class, "unanswered") || strings.Contains(f.class, "client/pool") {
+				slow++
+			}
+			if fails >= maxFailsPerChild || slow >= 2 {
 				out.Extra("stopped_after_failures", float64(fails))
 				out.Eval(c + 1 - a)
 				out.End()
